@@ -185,7 +185,7 @@ class Ctx:
         (plus `targets`); `sh setup.sh` builds the whole development.  Returns True on success."""
         rc, out, err = sh(["sh", os.path.join(COQ, "gen_project.sh")], timeout=120)
         t = time.time()
-        tg = ["Props/%s.vo" % self.prop] + list(targets or [])
+        tg = ["Props/%s.vo" % os.path.basename(f)[:-2] for f in self.prop_files()] + list(targets or [])
         try:
             rc, out, err = sh(["timeout", str(timeout), "make", "-C", COQ, "-j16"] + tg, timeout=timeout + 30)
         except subprocess.TimeoutExpired:
@@ -209,33 +209,54 @@ class Ctx:
                         bad.append("%s/%s: %s" % (sub, f, m.group(0)))
         return bad
 
+    def prop_files(self):
+        """Props/<prop>.v plus supplementary files Props/<prop><suffix>.v (e.g. C01ord.v)"""
+        d = os.path.join(COQ, "Props")
+        out = []
+        if os.path.isdir(d):
+            for f in sorted(os.listdir(d)):
+                if re.match(r"^%s[a-z]*\.v$" % self.prop, f):
+                    out.append(os.path.join(d, f))
+        return out
+
     def props_assumptions(self, allowed=()):
-        """re-compile Props/<prop>.v, capture Print Assumptions per theorem.
+        """re-compile every Props file of the property, capture Print Assumptions per theorem.
         returns (ok, theorems) with theorems = [(name, 'closed' | [axioms])]"""
-        pf = os.path.join(COQ, "Props", self.prop + ".v")
-        if not os.path.exists(pf):
+        files = self.prop_files()
+        if not any(os.path.basename(f) == self.prop + ".v" for f in files):
             return False, []
+        all_ok, all_thms = True, []
+        self.obligations = 0
+        self.discharged = 0
+        for pf in files:
+            ok, thms, nobl, ndis = self._props_file(pf, allowed)
+            self.obligations += nobl
+            self.discharged += ndis
+            all_ok = all_ok and ok
+            all_thms += thms
+        self.coverage["theorems"] = [{"name": nm, "assumptions": a} for nm, a in all_thms]
+        if not all_ok:
+            self.discharged = min(self.discharged, max(0, self.obligations - 1))
+        return all_ok, all_thms
+
+    def _props_file(self, pf, allowed):
         src = strip_comments(open(pf).read())
         names = re.findall(r"^\s*(?:Theorem|Corollary)\s+([A-Za-z0-9_']+)", src, re.M)
         printed = re.findall(r"Print\s+Assumptions\s+([A-Za-z0-9_'.]+)\s*\.", src)
-        tmpvo = os.path.join(self.scratch, self.prop + ".vo")
+        tmpvo = os.path.join(self.scratch, os.path.basename(pf) + "o")
         try:
             rc, out, err = sh(["timeout", "900", "coqc"] + QFLAGS + ["-o", tmpvo, pf], cwd=COQ, timeout=930)
         except subprocess.TimeoutExpired:
             rc, out, err = 124, "", "timeout"
-        self.obligations = len(names)
         if rc != 0:
-            self.props_log = (out + err)[-3000:]
-            # count the theorems that precede the failing line
+            self.props_log = os.path.basename(pf) + ": " + (out + err)[-3000:]
             m = re.search(r"line (\d+)", err)
             done = 0
             if m:
                 upto = "\n".join(open(pf).read().split("\n")[: int(m.group(1)) - 1])
                 done = len(re.findall(r"^\s*(?:Theorem|Corollary)\s+", strip_comments(upto), re.M))
                 done = max(0, done - 1)
-            self.discharged = done
-            return False, []
-        # split the output into blocks, one per Print Assumptions, in order
+            return False, [], len(names), done
         blocks = re.split(r"(?=Closed under the global context|Axioms:)", out)
         blocks = [b for b in blocks if b.startswith("Closed under") or b.startswith("Axioms:")]
         theorems = []
@@ -243,8 +264,8 @@ class Ctx:
         missing = [nm for nm in names if nm not in printed]
         if missing or len(blocks) != len(printed):
             ok = False
-            self.props_log = "theorems without Print Assumptions: %s (blocks %d, printed %d)" % (
-                missing, len(blocks), len(printed))
+            self.props_log = "%s: theorems without Print Assumptions: %s (blocks %d, printed %d)" % (
+                os.path.basename(pf), missing, len(blocks), len(printed))
         for nm, b in zip(printed, blocks):
             if b.startswith("Closed"):
                 theorems.append((nm, "closed"))
@@ -255,11 +276,7 @@ class Ctx:
                     if a not in STDLIB_AXIOMS and a not in allowed:
                         ok = False
                         self.props_log = "unexpected assumption %s under %s" % (a, nm)
-        self.discharged = len(names) if ok else 0
-        self.coverage["theorems"] = [
-            {"name": nm, "assumptions": a} for nm, a in theorems
-        ]
-        return ok, theorems
+        return ok, theorems, len(names), (len(names) if ok else 0)
 
     # -- correspondence cases evaluated inside Coq -------------------------------
     def coq_cases(self, name, imports, cases, chunk=250, timeout=600, prelude=""):
@@ -366,7 +383,7 @@ class Ctx:
         cov["distinct_nontrivial"] = len(self.distinct)
         cov["obligations"] = self.obligations
         cov["discharged"] = self.discharged
-        cov["checker_cmd"] = "make -C /verif/coq -j16 Props/%s.vo (coqc 8.16.1, full .vo build of the dependency closure) + coqc Props/%s.v (Print Assumptions)" % (self.prop, self.prop)
+        cov["checker_cmd"] = "make -C /verif/coq -j16 Props/%s*.vo (coqc 8.16.1, full .vo build of the dependency closure) + coqc Props/%s*.v (Print Assumptions)" % (self.prop, self.prop)
         cov["trusted_base"] = [
             "Coq 8.16.1 kernel (coqc; vm_compute used for case evaluation and finite sweeps; no native_compute)",
             "hand-written Gallina model tied to /repo by the executed correspondence of this run",
